@@ -672,6 +672,14 @@ def r9_desugar_iterators(srcs, stats):
             m2 = re.match(r'\s*;', src[pc:])
             if not mm or not m2 or mm.group(1) != mm.group(2) or re.search(r'\b%s\b' % re.escape(mm.group(1)), mm.group(4)): continue
             edits.append((x.start(), pc + m2.end(), 'for r9_k in 0..%s.len() { %s[r9_k] %s= %s; }' % (E, E, mm.group(3), mm.group(4)) + nl(x.start(), pc + m2.end()), 'R9e_for_each'))
+        # R12: `println!(..);` statements are dropped -- what a step writes to stdout is outside every property (the arguments are plain
+        #      variables; formatting them has no effect on the state)
+        for x in re.finditer(r'(?<![\w!])println!\s*\(', src):
+            if not live(x.start()): continue
+            pc = _close_paren(src, mask, x.end() - 1)
+            m2 = re.match(r'\s*;', src[pc:]) if pc else None
+            if not m2: continue
+            edits.append((x.start(), pc + m2.end(), '/* R12: println! dropped */' + nl(x.start(), pc + m2.end()), 'R12_println_dropped'))
         # h: the keys of a map, cloned into a vector (iteration order unspecified either way)
         for x in re.finditer(PLACE + r'\.keys\(\)\s*\.\s*cloned\(\)\s*\.\s*collect\(\)', src):
             if not live(x.start()): continue
